@@ -297,6 +297,7 @@ type c09World struct {
 	changes      atomic.Int64 // topology changes since the cache was created
 	rpcInOp      atomic.Int64
 	noObserve    atomic.Bool
+	wbReset      atomic.Bool // the white-box walker must forget its previous walk (a concurrent episode happened)
 	pdc          *c09PD
 	cli          *c09Client
 	cache        *RegionCache
@@ -725,6 +726,101 @@ func (w *c09World) bo(ms int) *retry.Backoffer {
 	return retry.NewBackofferWithVars(context.Background(), ms, nil)
 }
 
+// ---------------------------------------------------------------- a caller context that ends during a call
+
+type c09PlanKey struct{}
+
+// c09EndCtx is a context the harness can end at will, as cancelled or as
+// deadline-exceeded.  It carries the plan that tells the PD interposer at
+// which PD request of the call to end it.
+type c09EndCtx struct {
+	mu   sync.Mutex
+	done chan struct{}
+	err  error
+	plan *c09CtxPlan
+}
+
+func (c *c09EndCtx) Deadline() (time.Time, bool) { return time.Time{}, false }
+func (c *c09EndCtx) Done() <-chan struct{}       { return c.done }
+func (c *c09EndCtx) Err() error {
+	c.mu.Lock()
+	defer c.mu.Unlock()
+	return c.err
+}
+func (c *c09EndCtx) Value(k any) any {
+	if _, ok := k.(c09PlanKey); ok {
+		return c.plan
+	}
+	return nil
+}
+func (c *c09EndCtx) end(err error) {
+	c.mu.Lock()
+	if c.err == nil {
+		c.err = err
+		close(c.done)
+	}
+	c.mu.Unlock()
+}
+
+// c09CtxPlan: end the context at the at-th PD request made under it, before
+// the request is sent (PD refuses: the context is over) or after PD answered
+// (the answer arrives with the context already ended).
+type c09CtxPlan struct {
+	ctx   *c09EndCtx
+	at    int64
+	after bool
+	kind  error
+	calls atomic.Int64
+	fired atomic.Bool
+}
+
+func c09NewCtxPlan(rng *rand.Rand) *c09CtxPlan {
+	pl := &c09CtxPlan{at: int64(1 + rng.Intn(3)), after: rng.Intn(2) == 0, kind: context.Canceled}
+	if rng.Intn(3) == 0 {
+		pl.kind = context.DeadlineExceeded
+	}
+	pl.ctx = &c09EndCtx{done: make(chan struct{}), plan: pl}
+	return pl
+}
+
+func (pl *c09CtxPlan) String() string {
+	when := "before PD request"
+	if pl.after {
+		when = "after PD answer"
+	}
+	return fmt.Sprintf("ctx ends (%v) %s #%d", pl.kind, when, pl.at)
+}
+
+// ctxEnter is called at the start of every PD region request.  It returns an
+// error if the caller's context is over (as a PD client does) and a function
+// to be called when the answer is ready.
+func (p *c09PD) ctxEnter(ctx context.Context) (func(), error) {
+	post := func() {}
+	if pl, ok := ctx.Value(c09PlanKey{}).(*c09CtxPlan); ok && pl != nil {
+		n := pl.calls.Add(1)
+		if n == pl.at {
+			if !pl.after {
+				pl.fired.Store(true)
+				pl.ctx.end(pl.kind)
+				p.w.r.Count("ctx_ended_before_pd_request", 1)
+				p.w.logf("  caller context ended (%v) before PD request #%d", pl.kind, n)
+			} else {
+				post = func() {
+					pl.fired.Store(true)
+					pl.ctx.end(pl.kind)
+					p.w.r.Count("ctx_ended_after_pd_answer", 1)
+					p.w.logf("  caller context ended (%v) after PD answered request #%d", pl.kind, n)
+				}
+			}
+		}
+	}
+	if err := ctx.Err(); err != nil {
+		p.w.r.Count("pd_requests_refused_ctx_over", 1)
+		return nil, err
+	}
+	return post, nil
+}
+
 // ---------------------------------------------------------------- PD interposer
 
 type c09PD struct {
@@ -793,6 +889,11 @@ func (p *c09PD) deliver(what string, regs []*router.Region) []*router.Region {
 }
 
 func (p *c09PD) GetRegion(ctx context.Context, key []byte, opts ...opt.GetRegionOption) (*router.Region, error) {
+	post, cerr := p.ctxEnter(ctx)
+	if cerr != nil {
+		return nil, cerr
+	}
+	defer post()
 	s := p.pick("GetRegion")
 	r := s.find(key)
 	if r == nil {
@@ -802,6 +903,11 @@ func (p *c09PD) GetRegion(ctx context.Context, key []byte, opts ...opt.GetRegion
 }
 
 func (p *c09PD) GetPrevRegion(ctx context.Context, key []byte, opts ...opt.GetRegionOption) (*router.Region, error) {
+	post, cerr := p.ctxEnter(ctx)
+	if cerr != nil {
+		return nil, cerr
+	}
+	defer post()
 	s := p.pick("GetPrevRegion")
 	r := s.prev(key)
 	if r == nil {
@@ -812,6 +918,11 @@ func (p *c09PD) GetPrevRegion(ctx context.Context, key []byte, opts ...opt.GetRe
 }
 
 func (p *c09PD) GetRegionByID(ctx context.Context, regionID uint64, opts ...opt.GetRegionOption) (*router.Region, error) {
+	post, cerr := p.ctxEnter(ctx)
+	if cerr != nil {
+		return nil, cerr
+	}
+	defer post()
 	s := p.pick("GetRegionByID")
 	r := s.byID(regionID)
 	if r == nil {
@@ -836,6 +947,11 @@ func (p *c09PD) gappy(regs []*router.Region) []*router.Region {
 }
 
 func (p *c09PD) ScanRegions(ctx context.Context, startKey, endKey []byte, limit int, opts ...opt.GetRegionOption) ([]*router.Region, error) {
+	post, cerr := p.ctxEnter(ctx)
+	if cerr != nil {
+		return nil, cerr
+	}
+	defer post()
 	s := p.pick("ScanRegions")
 	return p.deliver("ScanRegions", p.gappy(s.scan(startKey, endKey, limit))), nil
 }
@@ -847,6 +963,11 @@ func (p *c09PD) BatchScanRegions(ctx context.Context, keyRanges []router.KeyRang
 	if nb {
 		return nil, status.Errorf(codes.Unimplemented, "c09: BatchScanRegions is not implemented by this PD")
 	}
+	post, cerr := p.ctxEnter(ctx)
+	if cerr != nil {
+		return nil, cerr
+	}
+	defer post()
 	s := p.pick("BatchScanRegions")
 	var out []*router.Region
 	for _, kr := range keyRanges {
